@@ -78,12 +78,59 @@ func (tb *Table) CSV(crlf bool, bom bool) []byte {
 	return buf.Bytes()
 }
 
+// csvStyled renders the table with every cell quoted and/or with blank lines between records. The blank
+// lines are placed pseudo-randomly but as a pure function of (table index, record index).
+func (tb *Table) csvStyled(crlf, bom, quoteAll bool, blank int, salt int) []byte {
+	var buf bytes.Buffer
+	if bom {
+		buf.Write([]byte{0xEF, 0xBB, 0xBF})
+	}
+	nl := "\n"
+	if crlf {
+		nl = "\r\n"
+	}
+	writeRec := func(rec []string) {
+		if quoteAll {
+			for i, c := range rec {
+				if i > 0 {
+					buf.WriteByte(',')
+				}
+				buf.WriteByte('"')
+				buf.WriteString(strings.ReplaceAll(c, "\"", "\"\""))
+				buf.WriteByte('"')
+			}
+			buf.WriteString(nl)
+			return
+		}
+		var b2 bytes.Buffer
+		w := csv.NewWriter(&b2)
+		w.UseCRLF = crlf
+		w.Write(rec)
+		w.Flush()
+		buf.Write(b2.Bytes())
+	}
+	writeRec(tb.Header)
+	for i, r := range tb.Rows {
+		if blank > 0 && len(tb.Header) >= 2 && ((i*7+salt*13+3)%8) < blank {
+			buf.WriteString(nl)
+		}
+		writeRec(r)
+	}
+	return buf.Bytes()
+}
+
 type ZipOpts struct {
 	Deflate []bool // per table (default store)
 	CRLF    bool
 	BOM     bool
 	// NoFinalNewline: the last row of every member is not terminated
 	NoFinalNewline bool
+	// BOMs: per table, a UTF-8 byte order mark (BOM, above, marks only the first member)
+	BOMs []bool
+	// QuoteAll: every cell is written in quotes
+	QuoteAll bool
+	// BlankLines: empty lines are sprinkled between records (CSV readers skip them)
+	BlankLines int // out of 8 per record
 }
 
 // Zip serialises the feed.
@@ -99,7 +146,14 @@ func (f *Feed) Zip(o ZipOpts) []byte {
 		if err != nil {
 			panic("harness: zip: " + err.Error())
 		}
-		body := tb.CSV(o.CRLF, o.BOM && i == 0)
+		bom := o.BOM && i == 0
+		if i < len(o.BOMs) && o.BOMs[i] {
+			bom = true
+		}
+		body := tb.CSV(o.CRLF, bom)
+		if tb.Raw == nil && (o.QuoteAll || o.BlankLines > 0) {
+			body = tb.csvStyled(o.CRLF, bom, o.QuoteAll, o.BlankLines, i)
+		}
 		if o.NoFinalNewline && tb.Raw == nil {
 			body = bytes.TrimRight(body, "\r\n")
 		}
@@ -497,7 +551,15 @@ func GenStatic(t *sim.T, c StaticCfg) *StaticModel {
 }
 
 func DrawZipOpts(t *sim.T, n int) ZipOpts {
-	o := ZipOpts{CRLF: t.Chance(1, 4), BOM: t.Chance(1, 6), NoFinalNewline: t.Chance(1, 4)}
+	o := ZipOpts{CRLF: t.Chance(1, 4), BOM: t.Chance(1, 6), NoFinalNewline: t.Chance(1, 4), QuoteAll: t.Chance(1, 8)}
+	if t.Chance(1, 8) {
+		o.BlankLines = t.Range(1, 4)
+	}
+	if t.Chance(1, 6) {
+		for i := 0; i < n; i++ {
+			o.BOMs = append(o.BOMs, t.Chance(1, 2))
+		}
+	}
 	mode := t.Choose(3) // all store, all deflate, mixed
 	for i := 0; i < n; i++ {
 		switch mode {
